@@ -15,6 +15,9 @@
 use crate::errors::{Error, Result};
 use crate::process::ProcessHandle;
 use erltf::types::{Atom, ExternalPid};
+#[cfg(edp_verif)]
+use edp_client::verif::DetHashMap as HashMap;
+#[cfg(not(edp_verif))]
 use std::collections::HashMap;
 use std::collections::hash_map::Entry;
 use std::sync::Arc;
